@@ -1,7 +1,7 @@
 (* C18: what the harness evaluates on observed behaviour (vm_compute). *)
 From Coq Require Import NArith List String Bool. Import ListNotations.
-From TP Require Import Base.PyVal Base.PyEq Errors.Template Errors.Render Errors.Parse Errors.TemplateOk
-  Errors.Collect Gen.Templates.
+From TP Require Import Base.PyVal Base.PyEq Base.PyOps Errors.Template Errors.Render Errors.Parse Errors.TemplateOk
+  Errors.Collect Errors.Guard Errors.GuardSchema Gen.Templates Gen.GuardProgs.
 Local Open Scope list_scope.
 
 Definition opt_str_eqb (a b : option pystr) : bool :=
@@ -72,8 +72,8 @@ Definition parse_unmodelled (c : pcase) : bool :=
 
 (* ---------------------------------------------------------------- construct / deserialize stream *)
 (* observed exception: None = accepted; Some (raw, json) *)
-Record ccase := { cc_ff : bool; cc_cls : pystr; cc_args : list arg; cc_obs : option exn_text }.
-Record dcase := { dc_ff : bool; dc_cls : pystr; dc_args : list darg; dc_bound : list darg; dc_obs : option exn_text }.
+Record ccase := { cc_ff : bool; cc_cls : pystr; cc_args : list uarg; cc_obs : option exn_text }.
+Record dcase := { dc_ff : bool; dc_cls : pystr; dc_args : list darg; dc_bound : list (darg * bool); dc_obs : option exn_text }.
 
 (* raw text is compared for plain messages, the decoded list for the JSON form *)
 Definition exn_agrees (m o : option exn_text) : bool :=
@@ -91,7 +91,81 @@ Definition exn_agrees (m o : option exn_text) : bool :=
 Definition no_dumps (l : list pystr) : pystr := [].
 
 Definition construct_mismatch (c : ccase) : bool :=
-  negb (exn_agrees (construct no_dumps (cc_ff c) (cc_cls c) (cc_args c)) (cc_obs c)).
+  negb (exn_agrees (construct_u no_dumps (cc_ff c) (cc_cls c) (cc_args c)) (cc_obs c)).
+
+(* the case lies where the theorems about [construct] speak (every error a TypeError / ValueError) *)
+Definition construct_hyps (c : ccase) : bool := all_caught (cc_args c).
 
 Definition deser_mismatch (c : dcase) : bool :=
-  negb (exn_agrees (deserialize no_dumps (dc_ff c) (dc_cls c) (dc_args c) (dc_bound c)) (dc_obs c)).
+  negb (exn_agrees (deserialize_u no_dumps (dc_ff c) (dc_cls c) (dc_args c) (dc_bound c)) (dc_obs c)).
+
+(* ---------------------------------------------------------------- guard stream *)
+(* one real validation chain run on one value: the field object's attributes as the harness read them,
+   the strings (among those in play) that its compiled pattern matches, the parameters, and what
+   happened: accepted, rejected by the raise statement numbered tid, or an exception that no raise
+   statement of typedpy produced (by class name) *)
+Inductive gobs := GOPass | GONamed (tid : N) | GOBare (name : pystr).
+Record gcase := { gc_label : pystr; gc_self : list (pystr * pyval); gc_re : list pystr;
+                  gc_vals : list pyval; gc_obs : gobs }.
+
+Definition self_of (l : list (pystr * pyval)) (a : pystr) : pyval :=
+  match alist_get l a with Some v => v | None => PNone end.
+Definition re_of (l : list pystr) (s : pystr) : bool := str_in s l.
+
+Definition exn_name (e : exn) : pystr :=
+  match e with
+  | TypeError => s2p "TypeError" | ValueError => s2p "ValueError" | InvalidStructureErr => s2p "InvalidStructureErr"
+  | IndexError => s2p "IndexError" | KeyError => s2p "KeyError" | AttributeError => s2p "AttributeError"
+  | OverflowError => s2p "OverflowError" | ZeroDivisionError => s2p "ZeroDivisionError"
+  | NotImplementedError => s2p "NotImplementedError" | RuntimeError => s2p "RuntimeError"
+  | OutOfFuel => s2p "OutOfFuel" | Unmodelled => s2p "Unmodelled" | OtherExn n => n
+  end.
+
+Definition guard_run (c : gcase) : option outcome :=
+  match kind_by_label (gc_label c) with
+  | Some k => match entry_of (k_entry k) with
+              | Some g => Some (run (re_of (gc_re c)) (self_of (gc_self c)) (gc_vals c) (g_prog g))
+              | None => None
+              end
+  | None => None
+  end.
+
+(* the model declines (rounding float(), Decimal arithmetic, opaque objects) *)
+Definition guard_unmodelled (c : gcase) : bool :=
+  match guard_run c with Some (Bare Unmodelled) => true | _ => false end.
+
+Definition guard_mismatch (c : gcase) : bool :=
+  match guard_run c with
+  | None => true
+  | Some (Bare Unmodelled) => false
+  | Some (Pass _) => match gc_obs c with GOPass => false | _ => true end
+  | Some (Named tid _) => match gc_obs c with GONamed t => negb (N.eqb t tid) | _ => true end
+  | Some (Bare e) => match gc_obs c with GOBare n => negb (pystr_eqb n (exn_name e)) | _ => true end
+  end.
+
+(* the real field object does not fit the schema its kind's theorem assumes *)
+Definition guard_schema_bad (c : gcase) : bool :=
+  match kind_by_label (gc_label c) with
+  | Some k => negb (attrs_ok (k_schema k) (self_of (gc_self c)))
+  | None => true
+  end.
+
+(* the hypotheses of C18_rejection_is_templated hold of the case *)
+Definition guard_hyps (c : gcase) : bool :=
+  match kind_by_label (gc_label c) with
+  | Some k => env_ok (init_env k) (self_of (gc_self c)) (gc_vals c)
+  | None => false
+  end.
+
+(* ... and yet the implementation raised an exception that names nothing: the theorem's conclusion is
+   false of the implementation (model and code have parted, or the schema is wrong) *)
+Definition guard_bare_under_hyps (c : gcase) : bool :=
+  guard_hyps c && match gc_obs c with GOBare _ => true | _ => false end.
+
+(* restricted kinds whose chain, today, passes the analysis on ALL values: the restriction is obsolete *)
+Definition restriction_obsolete (k : gkind) : bool :=
+  match entry_of (k_entry k) with
+  | Some g => gsafe {| a_vars := map (fun _ => None) (k_domain k); a_attrs := k_schema k |} (g_prog g)
+  | None => false
+  end.
+Definition obsolete_restrictions : list pystr := map k_label (filter restriction_obsolete kinds_restricted).
